@@ -384,7 +384,7 @@ def source_tree():
     import subprocess
     def git(*a):
         try:
-            return subprocess.run(["git", "-C", REPO] + list(a), capture_output=True, text=True, timeout=20).stdout.strip()
+            return subprocess.run(["git", "-C", REPO] + list(a), capture_output=True, text=True, timeout=20).stdout.rstrip()
         except Exception:
             return None
     st = git("status", "--porcelain", "--", "labella")
